@@ -33,7 +33,28 @@ def check_error(src, e):
         line = int(m.group(1))
         if not (1 <= line <= src.count('\n') + 1):
             return 'line %d outside the source' % line
+        # the line reported is a line on which (an occurrence of) the tag named in the message starts
+        t = re.search(r', for tag (.*), on line \d+ of', str(e), re.S)
+        if t:
+            import html
+            tag = html.unescape(t.group(1))
+            starts, k = set(), src.find(tag)
+            while k >= 0 and tag:
+                starts.add(src.count('\n', 0, k) + 1)
+                k = src.find(tag, k + 1)
+            if starts and line not in starts:
+                return 'the message names the tag %r, which starts on line %s, but reports line %d' % (tag, sorted(starts), line)
     return None
+
+
+# invalid block tags spread over several lines: the error is found only when the block is complete (at its end tag)
+LOCATED = [
+    'a\n<dtml-in x bogus>\n\nb\n</dtml-in>\n', '\n\n<dtml-let x>\n\n\n</dtml-let>', '<dtml-if a>\n<dtml-else>\n<dtml-else>\n</dtml-if>',
+    'x\n<dtml-try>\n\n<dtml-finally>\n<dtml-except>\n</dtml-try>', '\n<dtml-with>\n\n</dtml-with>', '<dtml-var x>\n\n<dtml-in s size=2 bogus=1>\n<dtml-else>\n\n</dtml-in>',
+    '\n<dtml-unless>\n\n</dtml-unless>', 'a\n\n<dtml-in s>\n<dtml-if>\n\n</dtml-if>\n</dtml-in>', '\n\n<dtml-raise x y z>\n\n</dtml-raise>',
+    '\n<!--#in x bogus-->\n\n<!--#/in-->', '\n%(in x bogus)[\n\n%(in)]', '\n\n<dtml-if x>\n<dtml-var y bogus>\n</dtml-if>', '\n<dtml-if x>\n\n</dtml-in>',
+    '\n\n<dtml-in x>\n\n', '<dtml-in x>\n<dtml-in y bogus>\n\n</dtml-in>\n</dtml-in>',
+]
 
 
 def search(big=False):
@@ -61,6 +82,14 @@ def search(big=False):
                         return n, dict(source=m, what=bad)
                 if dt > 2.0:
                     return n, dict(source=m, what='compiling took %.1fs' % dt)
+    for src in LOCATED:
+        for cls in (HTML, String):
+            n += 1
+            e, dt = compile_(cls, src)
+            if e is not None:
+                bad = check_error(src, e)
+                if bad:
+                    return n, dict(source=src, cls=cls.__name__, what=bad, error=str(e))
     frags = ['<dtml-', '</dtml-', '<!--#', '-->', '>', '"', "'", '&dtml', '&dtml-', '&dtml.', ';', 'var', 'if', 'else', 'in', '/', 'end', ' ', '\n', 'x', '=',
              '%(', ')s', ')[', ')]', 'expr="', '1+', 'let', 'try', 'except', 'a.b-c']
     for _ in range(4000 if big else 1200):
